@@ -216,6 +216,11 @@ func runC12(r *core.Run) *core.Violation {
 func (x *c12) drawNodes() []vec {
 	r := x.r
 	n := 1 + r.Choose(4, "inv.nodes")
+	if r.Bool(12, "inv.no-nodes") {
+		// the cluster reports that no node is available (all drained or gone): a valid answer
+		r.Count("probe:inventory-reports-no-nodes")
+		return nil
+	}
 	cpus := []uint64{100, 500, 1000, 4000}
 	mems := []uint64{64 * unit.Mi, unit.Gi, 8 * unit.Gi}
 	stos := []uint64{unit.Gi, 100 * unit.Gi}
